@@ -1315,6 +1315,10 @@ theorem SInv.succ {f : Nat} (h : SInv env senv f) : SInv env senv (f + 1) := by
     | dict kt t => simp [agreeb] at ha
     | chain e => exact agree_chain h ha hd he
     | highload => exact agree_highload h ha hd he
+    | dictAugE k t x => simp [agreeb] at ha
+    | dictAug k t x => simp [agreeb] at ha
+    | binTree t => simp [agreeb] at ha
+    | custom id body aux => simp [agreeb] at ha
     | cell => simp [agreeb] at ha
     | magic t => simp [agreeb] at ha
     | vmStack e => simp [agreeb] at ha
